@@ -516,6 +516,16 @@ class PM:
         self._attrtype_cache[key] = None
         res = None
         for m, st, val in self.attr_assignments(ci, attr):
+            # `self.a, self.b = (K(i) for i in ...)` / `= K(0), K(1)`: the attribute is ONE element
+            if isinstance(st, ast.Assign) and any(isinstance(t, (ast.Tuple, ast.List)) for t in st.targets):
+                if isinstance(val, (ast.GeneratorExp, ast.ListComp)):
+                    val = val.elt
+                elif isinstance(val, (ast.Tuple, ast.List)):
+                    for t in st.targets:
+                        if isinstance(t, (ast.Tuple, ast.List)) and len(t.elts) == len(val.elts):
+                            for te, ve in zip(t.elts, val.elts):
+                                if is_self_attr(te, attr):
+                                    val = ve
             t = self._ctor_type(m, val)
             if t is not None:
                 res = t
@@ -523,9 +533,9 @@ class PM:
         self._attrtype_cache[key] = res
         return res
 
-    def _ctor_type(self, fn: FuncInfo, val: ast.expr):
+    def _ctor_type(self, fn: FuncInfo, val: ast.expr, _depth: int = 0):
         if isinstance(val, ast.IfExp):
-            return self._ctor_type(fn, val.body) or self._ctor_type(fn, val.orelse)
+            return self._ctor_type(fn, val.body, _depth) or self._ctor_type(fn, val.orelse, _depth)
         if isinstance(val, ast.Call):
             r = self.resolve_expr_static(fn.module, val.func)
             if r and r[0] == "class":
@@ -535,8 +545,25 @@ class PM:
                     if r2 and r2[0] == "class":
                         return ("list", r2[1], c)
                 return c
+            # self._make_x(...) : a private factory method whose return value is a constructor call (or a local bound to one)
+            f = val.func
+            if _depth < 3 and isinstance(f, ast.Attribute) and isinstance(f.value, ast.Name) and f.value.id in ("self", "cls") and fn.cls is not None:
+                m = fn.cls.resolve(f.attr)
+                if m is not None and m is not fn:
+                    for r in walk_no_nested(m.node):
+                        if isinstance(r, ast.Return) and r.value is not None:
+                            rv = r.value
+                            if isinstance(rv, ast.Name):
+                                for st in walk_no_nested(m.node):
+                                    if isinstance(st, ast.Assign) and len(st.targets) == 1 and isinstance(st.targets[0], ast.Name) and st.targets[0].id == rv.id:
+                                        rv = st.value
+                                        break
+                            t = self._ctor_type(m, rv, _depth + 1)
+                            if t is not None:
+                                return t
+            # the return annotation of the callee
         if isinstance(val, ast.ListComp):
-            t = self._ctor_type(fn, val.elt)
+            t = self._ctor_type(fn, val.elt, _depth)
             if isinstance(t, ClassInfo):
                 return ("list", t, None)
         return None
